@@ -40,6 +40,10 @@ func c12Run(c *h.Ctx) {
 		c12BreakInContinueInterval(c)
 		return
 	}
+	if c.Case%40 == 13 {
+		c12BreakDuringOpenRetry(c)
+		return
+	}
 	r := c.R
 	var cur blindLvl
 	var atSignal blindLvl
@@ -274,6 +278,52 @@ func c12BreakInContinueInterval(c *h.Ctx) {
 	c.Sample(map[string]interface{}{"kind": "break set / ended inside the continue interval", "ended": endBreak, "decision": got})
 }
 
+// c12BreakDuringOpenRetry: the first attempt to open fails (nobody has sat down yet), the engine waits 3 s to retry;
+// meanwhile the level becomes a break and the players sit down. The retry must not open a hand on the break.
+func c12BreakDuringOpenRetry(c *h.Ctx) {
+	cfg := h.GenTable(c.R, h.GenOpts{MinSeats: 3, MinPlayers: 3, DeepOnly: true, Modes: []string{"ct", "cash"}})
+	s, err := h.NewSim(h.SimConfig{Setting: cfg.Setting(false), Interval: 0}, c.R.Int63())
+	if err != nil {
+		c.Inconclusive(err.Error())
+		return
+	}
+	for _, pl := range cfg.Players {
+		s.Reserve(pl.ID, pl.Seat, pl.Chips) // reserved, not seated-in
+	}
+	s.TE.StartTableGame()
+	if _, ok := s.WaitFor(3*time.Second, func(e *h.Ev) bool { return e.Kind == h.EvSetup }, nil); !ok {
+		c.Inconclusive("no set-up")
+		return
+	}
+	// nobody can signal (not seated-in): the gate fires by its 2 s timeout, the open fails and the engine sleeps 3 s
+	if _, ok := s.WaitFor(4*time.Second, func(e *h.Ev) bool { return e.Kind == h.EvGateFire }, nil); !ok {
+		c.Inconclusive("gate did not fire")
+		return
+	}
+	time.Sleep(700 * time.Millisecond)
+	s.TE.UpdateBlind(-1, 0, 0, 0, 0)
+	for _, pl := range cfg.Players {
+		s.TE.PlayerJoin(pl.ID)
+		time.Sleep(500 * time.Microsecond)
+	}
+	opened := false
+	s.WaitFor(8*time.Second, func(e *h.Ev) bool {
+		if e.Kind == h.EvTable && e.T != nil && (e.T.State.Status == pt.TableStateStatus_TableGameOpened || e.T.State.GameCount > 0) {
+			opened = true
+		}
+		return opened || e.Kind == h.EvGateRet
+	}, nil)
+	time.Sleep(5 * time.Millisecond)
+	if opened || s.TE.GetTable().State.GameCount > 0 {
+		c.Violate("C12/hand-opened-on-break/during-open-retry", "the blind level became a break while the engine was waiting to retry a failed open; the retry opened a hand on the break", map[string]interface{}{"cfg": cfg, "trace": s.TraceTail(30)})
+		return
+	}
+	c.Feature("break-during-open-retry")
+	c.Nontrivial()
+	c.FP("break-during-retry", fmt.Sprintf("%+v", cfg))
+	c.Sample(map[string]interface{}{"kind": "break set while the engine waits to retry a failed open", "cfg": cfg})
+}
+
 func init() {
 	h.Register(&h.Check{
 		ID:        "C12",
@@ -287,7 +337,7 @@ func init() {
 		},
 		Cases:            func(tier string) int { return map[string]int{"quick": 1200, "thorough": 20000}[tier] },
 		MinNontrivial:    func(tier string) int { return map[string]int{"quick": 600, "thorough": 10000}[tier] },
-		RequiredFeatures: func(string) []string { return []string{"update:between-hands", "update:mid-hand", "update:break-mid-hand", "paused-after-break-mid-hand", "update:break-ends", "created-on-break", "level-changed-while-hand-ran", "break-set-in-continue-interval", "break-ends-in-continue-interval"} },
+		RequiredFeatures: func(string) []string { return []string{"update:between-hands", "update:mid-hand", "update:break-mid-hand", "paused-after-break-mid-hand", "update:break-ends", "created-on-break", "level-changed-while-hand-ran", "break-set-in-continue-interval", "break-ends-in-continue-interval", "break-during-open-retry"} },
 		CaseTimeout:      200e9,
 		InProc:           4,
 		Run:              c12Run,
